@@ -103,10 +103,12 @@ def associate_ids(t1, t2, max_diff, offset):
 
 def align_similarity(est, ref, correct_scale, only_scale, n):
     """Horn alignment of est positions to ref positions on the first n pairs; returns R, t, s"""
-    if est.n != ref.n:
+    if n == -1:
+        x, y = est.p.T, ref.p.T
+    else:
+        x, y = est.p[:n].T, ref.p[:n].T
+    if x.shape != y.shape:
         raise Refuse("GeometryException", "unequal sizes")
-    used = est.n if n == -1 else n
-    x, y = est.p[:used].T, ref.p[:used].T
     if x.shape[1] < 1:
         raise Refuse("GeometryException", "no points")
     xc = x - x.mean(axis=1)[:, None]
